@@ -270,6 +270,8 @@ class Image:
                         if not (a == 0):
                             continue
             elif fmt in ('rdf', 'erdf'):
+                if a > 0 and (d[a - 1:a] != b'\n' or self.dmg[a - 1]):
+                    continue   # its own $RFMT/$MFMT line no longer starts a line: it cannot be seen as a delimiter
                 if b < len(d):
                     trail = bytes(d[b:b + 6])
                     if trail not in (b'$RFMT\n', b'$MFMT\n') or any(self.dmg[b:b + 6]):
